@@ -7,15 +7,27 @@ the sample MDIBs widened by ``vf.c10world`` + a real consumer with ConsumerMdib 
     not associated, update of the associated one, disassociation, re-association of an old state, several proposals for one and for
     several descriptors in one call, proposals that must be rejected),
   * direct ``context_state_transaction`` use: ``disassociate_all`` (+ ``mk_context_state(set_associated=True)``), and the entity
-    interface with ``xtra.disassociate_all``.
+    interface with ``xtra.disassociate_all``,
+  * update / (dis)association proposals that the consumer writes from scratch (no binding data, or binding data of its own) - the
+    usual ``mk_proposed_context_object(handle)`` copies the provider's values, so that nothing shows when the provider lets them through,
+  * calls that are rejected at their SECOND proposal (the handler already worked off the first one), directly followed by the next change
+    of the same descriptor (SetContextState / set_location / transaction / entity interface),
+  * forced interleavings (``vf.c10_ilv``): the device application (set_location, own transaction) and the SetContextState handler in
+    the operation thread change the same descriptor; the second party arrives while the first one is before / at three points inside
+    its transaction, in both orders,
+  * two proposals for one state, 'new + explicit disassociation of the old one', refused handle reuse via mk_context_state and add_state.
+Every world starts with a directed script that reaches each of these, then random actions follow.
 The harness itself never writes ContextAssociation into a stored state without the binding data (that would be an application error).
 
 Oracle: every commit is snapshot inside the commit critical section; for every commit that touched context states the transition
-``by_version[v-1] -> by_version[v]`` is judged exactly as the statement says.  EpisodicContextReport bodies seen on the wire are
-compared with the snapshot of their MdibVersion.
+``by_version[v-1] -> by_version[v]`` is judged exactly as the statement says; in addition ("after any sequence") a state that stays
+associated / disassociated must keep the binding / unbinding version of the commit in which the monitor saw it get there.
+EpisodicContextReport bodies seen on the wire are compared with the snapshot of their MdibVersion and must contain every state whose
+association changed in that commit.
 """
 from __future__ import annotations
 
+import threading
 import time
 
 from lxml import etree
@@ -24,6 +36,7 @@ from sdc11073.location import SdcLocation
 from sdc11073.xml_types import pm_types
 
 from .. import core
+from ..c10_ilv import WATCHDOG, Interleaver
 from ..c10world import CtxHistory, ctx_snapshot, mk_world
 from ..mdibharness import MDIB_FILES
 
@@ -70,6 +83,8 @@ def judge_commit(ctx, hist, v, touched, action, detail):
     if clash:
         ctx.witness(f'{mech}.context_state_handle_equals_descriptor_handle', 'a context state Handle equals a descriptor Handle', {**info, 'handles': clash[:3]})
     # (2) + (3) transitions
+    changed = hist.changed.setdefault(v, set())
+    scratch = 'scratch' in str(action.get('template'))
     for h in sorted(cur['states']):
         c = cur['states'][h]
         p = prev['states'].get(h)
@@ -77,7 +92,46 @@ def judge_commit(ctx, hist, v, touched, action, detail):
         now = c['ContextAssociation'] == 'Assoc'
         role = 'named' if (h in named or p is None) else 'side_effect'
         rec = {**info, 'state': h, 'role': role, 'before': _show(p), 'after': _show(c)}
+        if was != now:
+            changed.add(h)
+        if was and now and p != c:
+            # (3') the state stays associated: what it got when it became associated is still there ("after any sequence ... a state that
+            # became associated has its binding version and start time set, and these versions equal the MdibVersion at which ...")
+            ref = hist.bound_at.get(h)
+            if ref is not None and p['BindingMdibVersion'] == ref and p['BindingStartTime'] is not None:
+                ctx.count('persist.binding.checked')
+                ctx.count(f'persist.binding.checked.{mech}.{role}')
+                if scratch and role == 'named':
+                    ctx.count('persist.binding.checked.proposal_from_scratch')
+                bad = []
+                if c['BindingMdibVersion'] != ref:
+                    bad.append(f'BindingMdibVersion {c["BindingMdibVersion"]}, the state became associated at MdibVersion {ref}')
+                if c['BindingStartTime'] is None:
+                    bad.append('BindingStartTime not set any more')
+                if bad:
+                    ctx.witness(f'{mech}.update_of_associated_state_changed_binding',
+                                'an update that leaves a state associated changed / removed the binding version or start time it got '
+                                'when it became associated', {**rec, 'wrong': bad})
+        elif not was and not now and p is not None and p != c and p['ContextAssociation'] == 'Dis' and c['ContextAssociation'] == 'Dis':
+            # (2') the state stays disassociated: its unbinding data is still the one of the commit that disassociated it
+            ref = hist.unbound_at.get(h)
+            if ref is not None and p['UnbindingMdibVersion'] == ref and p['BindingEndTime'] is not None:
+                ctx.count('persist.unbinding.checked')
+                ctx.count(f'persist.unbinding.checked.{mech}.{role}')
+                if scratch and role == 'named':
+                    ctx.count('persist.unbinding.checked.proposal_from_scratch')
+                bad = []
+                if c['UnbindingMdibVersion'] != ref:
+                    bad.append(f'UnbindingMdibVersion {c["UnbindingMdibVersion"]}, the state stopped being associated at MdibVersion {ref}')
+                if c['BindingEndTime'] is None:
+                    bad.append('BindingEndTime not set any more')
+                if bad:
+                    ctx.witness(f'{mech}.update_of_disassociated_state_changed_unbinding',
+                                'an update that leaves a state disassociated changed / removed the unbinding version or end time it got '
+                                'when it stopped being associated', {**rec, 'wrong': bad})
         if was and not now:
+            hist.bound_at.pop(h, None)
+            hist.unbound_at[h] = v
             ctx.count('transition.assoc_to_other')
             ctx.count(f'transition.assoc_to_other.{mech}.{role}')
             if h in hist.ever_disassociated:
@@ -101,6 +155,8 @@ def judge_commit(ctx, hist, v, touched, action, detail):
                        else f'{SIDE_EFFECT_SITE.get(mech, mech)}.stale_unbinding' if role == 'side_effect' else f'{mech}.{role}.disassociated_wrong_unbinding')
                 ctx.witness(key, 'a state that stopped being associated does not carry the unbinding version / end time of that commit', {**rec, 'wrong': bad})
         elif now and not was:
+            hist.unbound_at.pop(h, None)
+            hist.bound_at[h] = v
             ctx.count('transition.to_assoc')
             ctx.count(f'transition.to_assoc.{mech}.{"new" if p is None else "existing"}')
             bad = []
@@ -164,6 +220,16 @@ class ReportWatch:
             if snap is None:
                 self.ctx.count('report.no_snapshot')
                 continue
+            need = self.hist.changed.pop(v, None)
+            if need:
+                # the change becomes visible to the consumers with the report of that MdibVersion: every state whose association changed
+                # in the commit is in it
+                self.ctx.count('report.association_changes', len(need))
+                missing = sorted(need - set(states))
+                if missing:
+                    self.ctx.witness('report.association_change_not_in_report',
+                                     'the EpisodicContextReport of a commit lacks a state whose association changed in that commit',
+                                     {**detail, 'mdib_version': v, 'missing': missing[:4], 'in_report': sorted(states)[:6]})
             for h, got in states.items():
                 self.ctx.count('report.context_states')
                 want = snap['states'].get(h)
@@ -193,6 +259,11 @@ class Driver:
         self.descrs = sorted(self.ops)
         self.loc_descrs = sorted(d.Handle for d in self.mdib.descriptions.objects if d.NODETYPE.localname == 'LocationContextDescriptor')
         self.n = 0
+        self.ilv = Interleaver(self.mdib)
+        self.settle = None  # set by the workload loop: judges what an action made visible (used between the halves of a composite action)
+
+    def kind_of(self, descr):
+        return self.mdib.descriptions.handle.get_one(descr).NODETYPE.localname[:3]
 
     # -- helpers ---------------------------------------------------------------------------------
     def states_of(self, descr):
@@ -224,15 +295,53 @@ class Driver:
             st.ContextAssociation = assoc
         return st
 
+    def scratch(self, descr, handle, assoc, foreign):
+        """a proposal for an existing state that the consumer writes from scratch (handles + association + content): it carries no
+        binding / unbinding data (these are maintained by the provider) or - ``foreign`` - values of the consumer's own"""
+        st = self.cc.mk_proposed_context_object(descr, None)
+        st.Handle = handle
+        st.ContextAssociation = assoc
+        self.touch(st)
+        if not st.Identification:
+            st.Identification = self.ident()
+        if foreign:
+            st.BindingMdibVersion, st.UnbindingMdibVersion = self.rng.randrange(0, 4), self.rng.randrange(0, 4)
+            st.BindingStartTime, st.BindingEndTime = 1000.0 + self.rng.randrange(10), 2000.0 + self.rng.randrange(10)
+            st.StateVersion = self.rng.randrange(0, 50)
+        return st
+
     def pick(self, descr, want_assoc):
         cand = sorted(h for h, a in self.states_of(descr).items() if (a == A.ASSOCIATED) == want_assoc)
         return self.rng.choice(cand) if cand else None
 
     # -- SetContextState templates -------------------------------------------------------------------
-    def tpl(self, name):  # noqa: C901, PLR0911, PLR0912
+    def tpl(self, name, d=None):  # noqa: C901, PLR0911, PLR0912
         """-> (operation handle, proposals, expect_rejection) or None if the template does not apply now"""
         rng = self.rng
-        d = rng.choice(self.descrs)
+        d = d or rng.choice(self.descrs)
+        if name in ('update_assoc_scratch', 'update_assoc_scratch_foreign'):
+            h = self.pick(d, True)
+            if h is None:
+                return None
+            return self.ops[d], [self.scratch(d, h, A.ASSOCIATED, name.endswith('foreign'))], False
+        if name in ('update_old_scratch', 'update_old_scratch_foreign'):
+            # a state that is not associated keeps its association (whatever it is) and gets new content
+            cand = sorted((h, a) for h, a in self.states_of(d).items() if a != A.ASSOCIATED)
+            dis = [x for x in cand if x[1] == A.DISASSOCIATED]
+            if not cand:
+                return None
+            h, a = rng.choice(dis or cand)
+            return self.ops[d], [self.scratch(d, h, a, name.endswith('foreign'))], False
+        if name == 'disassociate_scratch':
+            h = self.pick(d, True)
+            if h is None:
+                return None
+            return self.ops[d], [self.scratch(d, h, A.DISASSOCIATED, rng.random() < 0.5)], False
+        if name == 'reassociate_scratch':
+            h = self.pick(d, False)
+            if h is None:
+                return None
+            return self.ops[d], [self.scratch(d, h, A.ASSOCIATED, rng.random() < 0.5)], False
         if name == 'new_assoc':
             return self.ops[d], [self.proposal(d, None, A.ASSOCIATED)], False
         if name == 'new_assoc_copied':
@@ -294,8 +403,27 @@ class Driver:
                 return None
             return self.ops[d], [self.proposal(d, h, A.ASSOCIATED)], False
         if name == 'multi_one_descr':
-            kind = rng.choice(['new+new', 'update+new', 'update+update', 'swap'])
+            kind = rng.choice(['new+new', 'update+new', 'update+update', 'swap', 'swap', 'new+dis', 'same_state_twice', 'reassoc+update_other'])
             old_a, old_n = self.pick(d, True), self.pick(d, False)
+            if kind == 'new+dis' and old_a:  # "the old one leaves, a new one comes" said explicitly, in one call
+                props = [self.proposal(d, None, A.ASSOCIATED), self.proposal(d, old_a, A.DISASSOCIATED)]
+                rng.shuffle(props)
+                return self.ops[d], props, False
+            if kind == 'same_state_twice' and (old_a or old_n):
+                # two proposals for ONE state (same or contradicting association): whatever the provider makes of it, the invariants hold
+                h = rng.choice([x for x in (old_a, old_n) if x])
+                alts = [A.ASSOCIATED, A.DISASSOCIATED] if h == old_a else [A.ASSOCIATED, self.states_of(d)[h]]
+                props = [self.proposal(d, h, rng.choice(alts)), self.proposal(d, h, rng.choice(alts))]
+                self.touch(props[1])
+                return self.ops[d], props, False
+            if kind == 'reassoc+update_other' and old_n:
+                others = sorted(h for h, a in self.states_of(d).items() if a != A.ASSOCIATED and h != old_n)
+                if others:
+                    second = self.proposal(d, rng.choice(others))
+                    self.touch(second)
+                    props = [self.proposal(d, old_n, A.ASSOCIATED), second]
+                    rng.shuffle(props)
+                    return self.ops[d], props, False
             if kind == 'new+new':
                 return self.ops[d], [self.proposal(d, None, A.ASSOCIATED), self.proposal(d, None, A.NO_ASSOCIATION)], False
             if kind == 'update+new' and old_a:
@@ -355,8 +483,8 @@ class Driver:
             return self.ops[d], [st], True
         raise KeyError(name)
 
-    def invoke(self, name, detail):
-        t = self.tpl(name)
+    def invoke(self, name, detail, d=None, prepared=None):
+        t = prepared or self.tpl(name, d)
         if t is None:
             return None
         op_handle, props, expect_reject = t
@@ -364,7 +492,7 @@ class Driver:
         shape = tuple((p.NODETYPE.localname[:3], 'new' if p.Handle == p.DescriptorHandle else 'old', p.ContextAssociation.value) for p in props)
         try:
             fut = self.cc.set_context_state(op_handle, props)
-            res = fut.result(timeout=20)
+            res = fut.result(timeout=WATCHDOG)
             state = res.InvocationInfo.InvocationState.value
         except Exception as ex:  # noqa: BLE001
             state = f'raised:{type(ex).__name__}'
@@ -379,15 +507,15 @@ class Driver:
         return {'mech': 'setcontextstate', 'template': name, 'named': named, 'proposals': shape, 'result': state}
 
     # -- other mechanisms ----------------------------------------------------------------------------
-    def location(self):
+    def location(self, descr=None, via=None):
         rng = self.rng
         loc = SdcLocation(fac=rng.choice(NAMES), poc=rng.choice(NAMES), bed=f'{rng.choice(NAMES)}{self.n}', bldng=rng.choice([None] + NAMES),
                           flr=rng.choice([None, '1']), rm=rng.choice([None, 'r']))
         self.n += 1
         validators = rng.choice([None, [], [pm_types.InstanceIdentifier(root='urn:val', extension_string='v1')],
                                  [pm_types.InstanceIdentifier(root='urn:val', extension_string='v1'), pm_types.InstanceIdentifier(root='urn:val2')]])
-        descr = rng.choice(self.loc_descrs)
-        via = rng.choice(['provider', 'provider_publish', 'xtra'])
+        descr = descr or rng.choice(self.loc_descrs)
+        via = via or rng.choice(['provider', 'provider_publish', 'xtra'])
         handle_arg = descr if (len(self.loc_descrs) > 1 or rng.random() < 0.5) else None
         if via == 'xtra':
             self.mdib.xtra.set_location(loc, validators, location_context_descriptor_handle=handle_arg)
@@ -423,11 +551,11 @@ class Driver:
         self.ctx.count(f'failing_change.{sub}.{outcome}')
         return {'mech': 'failing_change', 'sub': sub, 'result': outcome}
 
-    def transaction(self):
+    def transaction(self, d=None, sub=None):
         rng = self.rng
-        d = rng.choice(self.descrs)
-        sub = rng.choice(['disassociate_all+mk_associated', 'disassociate_all+mk_associated', 'disassociate_all', 'disassociate_all_ignoring',
-                          'mk_not_associated', 'disassociate_all+mk_associated_handle'])
+        d = d or rng.choice(self.descrs)
+        sub = sub or rng.choice(['disassociate_all+mk_associated', 'disassociate_all+mk_associated', 'disassociate_all', 'disassociate_all_ignoring',
+                                 'mk_not_associated', 'disassociate_all+mk_associated_handle'])
         with self.mdib.context_state_transaction() as mgr:
             if sub.startswith('disassociate_all+'):
                 mgr.disassociate_all(d)
@@ -443,10 +571,10 @@ class Driver:
                 st.Identification = self.ident()
         return {'mech': 'transaction', 'sub': sub}
 
-    def entity(self):
+    def entity(self, d=None, sub=None):
         rng = self.rng
-        d = rng.choice(self.descrs)
-        sub = rng.choice(['disassociate_all+new_associated', 'disassociate_all', 'update_content'])
+        d = d or rng.choice(self.descrs)
+        sub = sub or rng.choice(['disassociate_all+new_associated', 'disassociate_all', 'update_content'])
         with self.mdib.context_state_transaction() as mgr:
             ent = self.mdib.entities.by_handle(d)
             handles = []
@@ -467,7 +595,7 @@ class Driver:
                 mgr.write_entity(ent, handles)
         return {'mech': 'entity', 'sub': sub}
 
-    def reject_handle_reuse(self):
+    def reject_handle_reuse(self, detail=None, via=None):  # noqa: ARG002
         """mk_context_state / add_state with a context state handle that exists must be refused (and commit nothing)"""
         with self.mdib.mdib_lock:
             existing = sorted(s.Handle for s in self.mdib.context_states.objects)
@@ -476,10 +604,17 @@ class Driver:
         d = self.rng.choice(self.descrs)
         outcome = 'accepted'
         handle = self.rng.choice(existing)
+        via = via or self.rng.choice(['mk_context_state', 'add_state'])
         try:
             with self.mdib.context_state_transaction() as mgr:
                 try:
-                    mgr.mk_context_state(d, handle, set_associated=False)
+                    if via == 'mk_context_state':
+                        mgr.mk_context_state(d, handle, set_associated=False)
+                    else:
+                        st = self.mdib.data_model.mk_state_container(self.mdib.descriptions.handle.get_one(d))
+                        st.Handle = handle
+                        st.Identification = self.ident()
+                        mgr.add_state(st)
                 except ValueError:
                     outcome = 'refused'
                     raise
@@ -487,19 +622,199 @@ class Driver:
             if outcome != 'refused':
                 outcome = f'accepted_then_{type(ex).__name__}'
         self.ctx.count(f'transaction.handle_reuse.{outcome}')
+        self.ctx.count(f'transaction.handle_reuse.{via}.{outcome}')
         if outcome != 'refused':
-            self.ctx.witness('transaction.mk_context_state.handle_in_use_accepted',
-                             'mk_context_state accepted the Handle of an existing context state (handles are no longer unique)',
+            self.ctx.witness(f'transaction.{via}.handle_in_use_accepted',
+                             f'{via} accepted the Handle of an existing context state (handles are no longer unique)',
                              {'descriptor': d, 'handle': handle, 'outcome': outcome})
-        return {'mech': 'transaction', 'sub': 'mk_context_state_existing_handle', 'result': outcome}
+        return {'mech': 'transaction', 'sub': f'{via}_existing_handle', 'result': outcome}
+
+    # -- a rejected call that was valid up to some proposal, and what comes next -----------------------------
+    def rejected_partial(self, detail, d=None, first=None, bad=None, follow=None):
+        """SetContextState with several proposals of which a later one is invalid: the whole call is rejected, and the part of it that
+        the handler already worked off must not show - neither now (rule 'table == last commit') nor in what the NEXT change of the
+        same descriptor makes visible (that change directly follows, before anything else is committed)."""
+        rng = self.rng
+        d = d or rng.choice(self.descrs)
+        old_a, old_n = self.pick(d, True), self.pick(d, False)
+        first = first or rng.choice(['new_assoc', 'new_assoc', 'reassociate_old', 'disassociate', 'update_assoc'])
+        if first == 'reassociate_old' and old_n:
+            good = self.proposal(d, old_n, A.ASSOCIATED)
+        elif first == 'disassociate' and old_a:
+            good = self.proposal(d, old_a, A.DISASSOCIATED)
+        elif first == 'update_assoc' and old_a:
+            good = self.proposal(d, old_a)
+            self.touch(good)
+        else:
+            first, good = 'new_assoc', self.proposal(d, None, A.ASSOCIATED)
+        bad = bad or rng.choice(['unknown_state', 'unknown_state_other_descriptor', 'associated_to_no', 'unknown_descriptor'])
+        others = [x for x in self.descrs if x != d]
+        d2 = rng.choice(others)
+        if bad == 'associated_to_no':
+            with_assoc = [x for x in others if self.pick(x, True)]
+            if with_assoc:
+                d2 = rng.choice(with_assoc)
+                wrong = self.proposal(d2, self.pick(d2, True), A.NO_ASSOCIATION)
+            else:
+                bad = 'unknown_state'
+        if bad in ('unknown_state', 'unknown_state_other_descriptor'):
+            wrong = self.proposal(d if bad == 'unknown_state' else d2, None, rng.choice([A.NO_ASSOCIATION, A.DISASSOCIATED]))
+            wrong.Handle = 'no.such.state'
+        elif bad == 'unknown_descriptor':
+            wrong = self.proposal(d2, None, A.NO_ASSOCIATION)
+            wrong.DescriptorHandle = wrong.Handle = 'no.such.descriptor'
+        action = self.invoke(f'partial.{first}+{bad}', detail, prepared=(self.ops[d], [good, wrong], True))
+        self.ctx.count(f'partial_reject.first_call.{action["result"]}')
+        self.settle(action, detail)
+        if action['result'] != 'Fail':
+            return None
+        # the next change of the same descriptor
+        follow = follow or rng.choice(['new_assoc', 'new_assoc', 'reassociate_old', 'update_assoc', 'disassociate', 'set_location', 'transaction', 'entity'])
+        if follow == 'set_location' and d not in self.loc_descrs:
+            follow = 'transaction'
+        if follow == 'set_location':
+            nxt = self.location(descr=d)
+        elif follow == 'transaction':
+            nxt = self.transaction(d=d, sub='disassociate_all+mk_associated')
+        elif follow == 'entity':
+            nxt = self.entity(d=d, sub=rng.choice(['disassociate_all+new_associated', 'disassociate_all', 'update_content']))
+        else:
+            nxt = self.invoke(follow, detail, d=d) or self.invoke('new_assoc', detail, d=d)
+        self.ctx.count('partial_reject.followed_by_change')
+        self.ctx.count(f'partial_reject.followed_by.{nxt["mech"]}')
+        nxt['after_partial_reject'] = f'{first}+{bad}'
+        return nxt
+
+    # -- two parties at the same time ----------------------------------------------------------------
+    def _party(self, kind, d):
+        """a context change of the device application for descriptor d"""
+        if kind == 'set_location':
+            return self.location(descr=d)
+        if kind == 'transaction':
+            return self.transaction(d=d, sub='disassociate_all+mk_associated')
+        return self.entity(d=d, sub='disassociate_all+new_associated')
+
+    def _request(self, d, prop):
+        old_a, old_n = self.pick(d, True), self.pick(d, False)
+        if prop == 'reassociate_old' and old_n:
+            return prop, [self.proposal(d, old_n, A.ASSOCIATED)]
+        if prop == 'disassociate' and old_a:
+            return prop, [self.proposal(d, old_a, A.DISASSOCIATED)]
+        if prop == 'update_assoc' and old_a:
+            st = self.proposal(d, old_a)
+            self.touch(st)
+            return prop, [st]
+        return 'new_assoc', [self.proposal(d, None, A.ASSOCIATED)]
+
+    def interleave(self, detail, d=None, owner=None, point=None, app=None, prop=None):
+        """The device application changes a context (set_location / own transaction) and a SetContextState for the same descriptor is
+        worked off by the operation thread at the same time: the one that comes second reaches the transaction while the first one
+        (``owner``: 'handler' or 'application') is at ``point`` inside its own transaction."""
+        rng = self.rng
+        d = d or rng.choice(self.descrs + self.loc_descrs_with_op())
+        owner = owner or rng.choice(['handler', 'handler', 'application'])
+        point = point or rng.choice(['before_open', 'after_open', 'before_write', 'before_commit'])
+        app = app or rng.choice(['set_location', 'set_location', 'transaction', 'entity'])
+        if app == 'set_location' and d not in self.loc_descrs:
+            app = 'transaction'
+        prop, props = self._request(d, prop or rng.choice(['new_assoc', 'new_assoc', 'reassociate_old', 'disassociate', 'update_assoc']))
+        named = [p.Handle for p in props if p.Handle != p.DescriptorHandle]
+        main = threading.current_thread()
+        box = {}
+
+        def run_app():
+            try:
+                box['app'] = self._party(app, d)
+            except Exception as ex:  # noqa: BLE001
+                box['app_error'] = repr(ex)[:200]
+
+        if owner == 'handler':
+            thread = threading.Thread(target=lambda: (run_app(), plan.note_finished()), name='c10-application', daemon=True)
+            plan = self.ilv.arm(point, lambda t: t.name == 'DeviceOperationsWorker', lambda t: t is thread, thread.start)
+            try:
+                fut = self.cc.set_context_state(self.ops[d], props)
+                state = self._result(fut)
+                if plan.fired:
+                    thread.join(WATCHDOG)
+                    if thread.is_alive():
+                        self.ctx.not_decided('interleave: the application thread did not come back')
+            finally:
+                self.ilv.disarm()
+        else:
+            def send():
+                box['fut'] = self.cc.set_context_state(self.ops[d], props)
+                box['fut'].add_done_callback(lambda _f: plan.note_finished())
+            plan = self.ilv.arm(point, lambda t: t is main, lambda t: t.name == 'DeviceOperationsWorker', send)
+            try:
+                run_app()
+            finally:
+                self.ilv.disarm()
+            state = self._result(box['fut']) if 'fut' in box else 'not_sent'
+        if 'app_error' in box:
+            self.ctx.count('interleave.application_raised')
+            self.ctx.not_decided(f'interleave: the application side raised {box["app_error"]}')
+        how = plan.how if plan.fired else 'not_reached'
+        self.ctx.count(f'interleave.{how}')
+        self.ctx.count(f'interleave.{owner}.{point}.{how}')
+        if plan.fired and how != 'watchdog':
+            self.ctx.count(f'interleave.reached.{owner}.{point}')
+            if app == 'set_location':
+                self.ctx.count('interleave.reached.set_location')
+        self.ctx.count(f'interleave.{owner}.{app}.{self.kind_of(d)}.{how}')
+        self.ctx.count(f'interleave.setcontextstate.{state}')
+        if how == 'watchdog':
+            self.ctx.not_decided(f'interleave: neither party made progress within {WATCHDOG} s ({owner}, {point}, {app})')
+        return {'mech': 'interleaved', 'sub': f'{owner}.{point}.{app}', 'named': named, 'proposals': ((self.kind_of(d), prop),),
+                'result': f'{state}/{how}'}
+
+    def loc_descrs_with_op(self):
+        return [x for x in self.loc_descrs if x in self.ops]
+
+    def _result(self, fut):
+        try:
+            return fut.result(timeout=WATCHDOG).InvocationInfo.InvocationState.value
+        except Exception as ex:  # noqa: BLE001
+            if 'Timeout' in type(ex).__name__:
+                self.ctx.not_decided('SetContextState future did not complete (interleave)')
+            return f'raised:{type(ex).__name__}'
 
 
 TEMPLATES = ['new_assoc', 'new_pre', 'assoc_last_pre', 'new_assoc', 'new_assoc_copied', 'new_not_assoc', 'update_assoc', 'update_old', 'disassociate', 'reassociate_old', 'reassociate_old',
              'multi_one_descr', 'multi_one_descr', 'multi_descr', 'multi_descr', 'reject_two_assoc', 'reject_unknown_state',
-             'reject_state_of_other_descriptor', 'reject_unknown_descriptor', 'assoc_to_no_or_pre']
+             'reject_state_of_other_descriptor', 'reject_unknown_descriptor', 'assoc_to_no_or_pre',
+             'update_assoc_scratch', 'update_assoc_scratch_foreign', 'update_old_scratch', 'update_old_scratch_foreign', 'disassociate_scratch',
+             'reassociate_scratch', 'multi_one_descr']
 
 
-def w_sequences(ctx: core.Ctx, arg):
+def directed(drv):
+    """the always executed part of a world: (name of the Driver method, arguments) - every new monitor is reached by it"""
+    steps = []
+    for d in [x for x in (next((x for x in drv.descrs if drv.kind_of(x) == 'Pat'), None), next(iter(drv.loc_descrs_with_op()), None)) if x]:
+        app = 'set_location' if d in drv.loc_descrs else 'transaction'
+        steps += [
+            # binding data survives updates whose proposal does not carry it / carries other values
+            ('invoke', {'name': 'new_assoc', 'd': d}), ('invoke', {'name': 'update_assoc_scratch', 'd': d}),
+            ('invoke', {'name': 'update_assoc_scratch_foreign', 'd': d}), ('invoke', {'name': 'new_assoc', 'd': d}),
+            ('invoke', {'name': 'update_old_scratch', 'd': d}), ('invoke', {'name': 'update_old_scratch_foreign', 'd': d}),
+            ('reject_handle_reuse', {'via': 'add_state'}), ('reject_handle_reuse', {'via': 'mk_context_state'}),
+            # a call that is rejected at its second proposal, then the next change of that descriptor
+            ('rejected_partial', {'d': d, 'first': 'new_assoc', 'bad': 'unknown_state', 'follow': 'new_assoc'}),
+            ('rejected_partial', {'d': d, 'first': 'reassociate_old', 'bad': 'unknown_state_other_descriptor', 'follow': 'reassociate_old'}),
+            ('rejected_partial', {'d': d, 'first': 'new_assoc', 'bad': 'associated_to_no', 'follow': app}),
+            ('rejected_partial', {'d': d, 'first': 'disassociate', 'bad': 'unknown_descriptor', 'follow': 'entity'}),
+            # the application and the operation thread change the same context at the same time
+            ('interleave', {'d': d, 'owner': 'handler', 'point': 'after_open', 'app': app, 'prop': 'new_assoc'}),
+            ('interleave', {'d': d, 'owner': 'handler', 'point': 'before_write', 'app': app, 'prop': 'new_assoc'}),
+            ('interleave', {'d': d, 'owner': 'handler', 'point': 'before_commit', 'app': 'entity', 'prop': 'reassociate_old'}),
+            ('interleave', {'d': d, 'owner': 'handler', 'point': 'before_open', 'app': app, 'prop': 'new_assoc'}),
+            ('interleave', {'d': d, 'owner': 'application', 'point': 'before_open', 'app': app, 'prop': 'reassociate_old'}),
+            ('interleave', {'d': d, 'owner': 'application', 'point': 'after_open', 'app': app, 'prop': 'new_assoc'}),
+            ('interleave', {'d': d, 'owner': 'application', 'point': 'before_commit', 'app': 'transaction', 'prop': 'reassociate_old'}),
+        ]
+    return steps
+
+
+def w_sequences(ctx: core.Ctx, arg):  # noqa: C901, PLR0915
     rng = ctx.rng('seq', arg['i'])
     for wno in range(arg['worlds']):
         mdib_file = MDIB_FILES[(arg['i'] + wno) % len(MDIB_FILES)]
@@ -516,30 +831,9 @@ def w_sequences(ctx: core.Ctx, arg):
                 ctx.count('world.two_location_descriptors')
             hist.take_new()
             shapes = []
-            for step in range(arg['steps']):
-                r = rng.random()
-                detail = {'mdib_file': mdib_file, 'step': step, 'world': [arg['i'], wno]}
-                watch.detail = detail
-                try:
-                    if r < 0.14:
-                        action = drv.location()
-                    elif r < 0.26:
-                        action = drv.transaction()
-                    elif r < 0.34:
-                        action = drv.entity()
-                    elif r < 0.37:
-                        action = drv.reject_handle_reuse()
-                    elif r < 0.42:
-                        action = drv.failing_change()
-                    else:
-                        action = drv.invoke(TEMPLATES[step % len(TEMPLATES)] if step < 2 * len(TEMPLATES) else rng.choice(TEMPLATES), detail)
-                except Exception as ex:  # noqa: BLE001
-                    ctx.count(f'action.raised.{type(ex).__name__}')
-                    action = {'mech': 'harness', 'raised': repr(ex)[:200]}
-                    ctx.not_decided(f'workload step raised {ex!r}'[:300])
-                if action is None:
-                    ctx.count('action.not_applicable')
-                    continue
+
+            def settle(action, detail):
+                """judge everything the action made visible"""
                 ctx.count(f'action.{action["mech"]}')
                 commits = [(v, hs) for v, hs in hist.take_new() if hs]
                 for v, hs in commits:
@@ -553,22 +847,63 @@ def w_sequences(ctx: core.Ctx, arg):
                 if last is not None and now != last:
                     diff = sorted(h for h in set(now['states']) | set(last['states']) if now['states'].get(h) != last['states'].get(h))
                     ctx.witness(f'{action["mech"]}.visible_without_commit', 'the context states in the MDIB differ from what the last commit made visible '
-                                '(MdibVersion unchanged)', {**detail, 'action': action, 'handles': diff[:4],
+                                '(MdibVersion unchanged)', {**detail, 'action': {k: x for k, x in action.items() if k != 'named'}, 'handles': diff[:4],
                                                             'now': [_show(now['states'][h]) for h in diff[:2] if h in now['states']],
                                                             'committed': [_show(last['states'][h]) for h in diff[:2] if h in last['states']]})
                     hist.by_version[now['v']] = now   # reported once
                 shapes.append((action['mech'], action.get('template') or action.get('sub') or action.get('via'), action.get('proposals'),
-                               action.get('result'), tuple(len(hs) for _, hs in commits)))
+                               action.get('result'), action.get('after_partial_reject'), tuple(len(hs) for _, hs in commits)))
                 if commits:
                     low = min(v for v, _ in commits) - 2
                     for old in [k for k in hist.by_version if k < low]:
                         del hist.by_version[old]
-                if len(shapes) == 15:
-                    ctx.case(tuple(shapes), nontrivial=any(s[4] for s in shapes))
-                    if arg['i'] == 0 and wno == 0 and step < 40:
-                        ctx.sample({'mdib_file': mdib_file, 'sequence': [list(s[:2]) + [s[3], list(s[4])] for s in shapes]})
-                    shapes = []
+                    for old in [k for k in hist.changed if k < low]:
+                        del hist.changed[old]
                 world.network.log.clear()
+
+            drv.settle = settle
+            script = directed(drv)
+            for step in range(-len(script), arg['steps']):
+                detail = {'mdib_file': mdib_file, 'step': step, 'world': [arg['i'], wno]}
+                watch.detail = detail
+                try:
+                    if step < 0:
+                        name, kw = script[step + len(script)]
+                        detail['directed'] = name
+                        action = drv.invoke(kw['name'], detail, d=kw['d']) if name == 'invoke' else getattr(drv, name)(detail, **kw)
+                        if action is None:
+                            ctx.count(f'directed.not_applicable.{name}')
+                    else:
+                        r = rng.random()
+                        if r < 0.13:
+                            action = drv.location()
+                        elif r < 0.24:
+                            action = drv.transaction()
+                        elif r < 0.31:
+                            action = drv.entity()
+                        elif r < 0.34:
+                            action = drv.reject_handle_reuse()
+                        elif r < 0.39:
+                            action = drv.failing_change()
+                        elif r < 0.45:
+                            action = drv.rejected_partial(detail)
+                        elif r < 0.51:
+                            action = drv.interleave(detail)
+                        else:
+                            action = drv.invoke(TEMPLATES[step % len(TEMPLATES)] if step < 2 * len(TEMPLATES) else rng.choice(TEMPLATES), detail)
+                except Exception as ex:  # noqa: BLE001
+                    ctx.count(f'action.raised.{type(ex).__name__}')
+                    action = {'mech': 'harness', 'raised': repr(ex)[:200]}
+                    ctx.not_decided(f'workload step raised {ex!r}'[:300])
+                if action is None:
+                    ctx.count('action.not_applicable')
+                    continue
+                settle(action, detail)
+                while len(shapes) >= 15:
+                    case, shapes = shapes[:15], shapes[15:]
+                    ctx.case(tuple(case), nontrivial=any(s[5] for s in case))
+                    if arg['i'] == 0 and wno == 0 and step < 40:
+                        ctx.sample({'mdib_file': mdib_file, 'sequence': [list(s[:2]) + [s[3], s[4], list(s[5])] for s in case]})
         finally:
             if wno < arg['worlds'] - 1:  # the worker process ends with os._exit: the last world needs no (slow) orderly shutdown
                 world.stop()
@@ -576,18 +911,28 @@ def w_sequences(ctx: core.Ctx, arg):
 
 def run(ctx: core.Ctx):
     ctx.rule = ('seeded action sequences on 4 widened sample MDIBs (patient, location(s), 2+ ensemble descriptors, one SetContextState operation '
-                'each; sync / async subscription manager): set_location (3 ways) / SetContextState through the consumer client (20 templates) / '
+                'each; sync / async subscription manager): a directed script per world (proposals written from scratch, calls rejected at their '
+                'second proposal + the next change, application and operation thread interleaved at 4 points in both orders, refused handle reuse) '
+                'followed by random actions: set_location (3 ways) / SetContextState through the consumer client (22 templates) / '
                 'context_state_transaction with disassociate_all + mk_context_state / entity interface with xtra.disassociate_all / refused handle '
-                'reuse; one case = 15 consecutive actions; distinct = sequence of (mechanism, template, (state type, new/old, proposed association) '
-                'per proposal, invocation result, #context states per commit); non-trivial = at least one commit touched context states')
+                'reuse (mk_context_state, add_state) / rejected-at-second-proposal + follow-up / forced interleavings; one case = 15 consecutive '
+                'actions; distinct = sequence of (mechanism, template, (state type, new/old, proposed association) per proposal, invocation result, '
+                'preceding rejected call, #context states per commit); non-trivial = at least one commit touched context states')
     ctx.assumptions += [
         'only commits made by the mechanisms named in the property are judged; the harness never stores a ContextAssociation change without '
         'the binding data itself', '"set" for BindingStartTime / BindingEndTime means not None (a stale time is not flagged), versions must equal the '
-        'MdibVersion of the commit', 'new associated states get an Identification (the scopes factory of publish() requires it)']
+        'MdibVersion of the commit', 'new associated states get an Identification (the scopes factory of publish() requires it)',
+        '"after any sequence": a state that stays associated keeps the BindingMdibVersion (= version at which the monitor saw it become associated) '
+        'and a BindingStartTime, a state that stays Dis keeps the UnbindingMdibVersion of the commit that disassociated it and a BindingEndTime; '
+        'states whose (un)binding the monitor did not see are not judged',
+        'interleavings are forced on logical events (second party asks for a lock the owner holds / second party finished); the two commits of an '
+        'interleaved action are judged under the mechanism key "interleaved"',
+        '"became visible": the EpisodicContextReport with the MdibVersion of the commit contains every state whose association changed in it '
+        '(judged only for reports that were seen)']
     if ctx.quick:
         jobs = [['w_sequences', {'i': k, 'worlds': 1, 'steps': 280}] for k in range(16)]
     else:
-        jobs = [['w_sequences', {'i': k, 'worlds': 5, 'steps': 1000}] for k in range(32)]
+        jobs = [['w_sequences', {'i': k, 'worlds': 5, 'steps': 800}] for k in range(32)]
     core.fanout(ctx, MODULE, 'dispatch', jobs, timeout=3000)
     ctx.floor('commit.judged', 1500)
     for mech in ('set_location', 'setcontextstate', 'transaction', 'entity'):
@@ -603,6 +948,25 @@ def run(ctx: core.Ctx):
     ctx.floor('transaction.handle_reuse.refused', 10)
     ctx.floor('world.two_location_descriptors', 2)
     ctx.floor('report.context_states', 1000)
+    ctx.floor('report.association_changes', 1000)
+    # an update proposal that does not carry the provider's binding data (directed: 4 per world)
+    ctx.floor('persist.binding.checked.proposal_from_scratch', 40)
+    ctx.floor('persist.unbinding.checked.proposal_from_scratch', 40)
+    ctx.floor('persist.binding.checked', 100)
+    ctx.floor('persist.unbinding.checked', 100)
+    # a call rejected after the handler worked off its first proposal, directly followed by the next change (directed: 8 per world)
+    ctx.floor('partial_reject.first_call.Fail', 100)
+    ctx.floor('partial_reject.followed_by_change', 100)
+    ctx.floor('partial_reject.followed_by.setcontextstate', 30)
+    # forced interleavings (directed: 14 per world; 'blocked' / 'ran_before' is what the unchanged provider does)
+    ctx.floor('action.interleaved', 200)
+    ctx.floor('commit.judged.interleaved', 300)
+    for k in ('handler.before_open', 'handler.after_open', 'handler.before_write', 'handler.before_commit',
+              'application.before_open', 'application.after_open', 'application.before_commit'):
+        ctx.floor(f'interleave.reached.{k}', 16)
+    ctx.floor('interleave.reached.set_location', 40)
+    ctx.floor('transaction.handle_reuse.add_state.refused', 10)
+    ctx.floor('transaction.handle_reuse.mk_context_state.refused', 10)
 
 
 def dispatch(ctx: core.Ctx, job):
